@@ -29,7 +29,7 @@ LEVEL = 'model_checking'
 LEVEL_TEXT = (
     'Explicit-state breadth-first exploration of every statement history up to the stated depth '
     '(quick: depth 3 from the empty session, depth 2 from two populated roots; thorough: depth 4 from the empty session plus depth 3 '
-    'from four populated roots incl. OPTION BASE 1) over a 24-statement alphabet, executed on real '
+    'from four populated roots incl. OPTION BASE 1) over a 26-statement alphabet, executed on real '
     'pcbasic Sessions, de-duplicated on the complete variable/array/string-space state. In every '
     'reached state every live scalar and every array element is checked through VARPTR, VARPTR$ and '
     'PEEK against an independent reference of values and byte encodings.')
@@ -91,6 +91,9 @@ OPS = [
     [('erase', 'Q!')],
     [('erase', 'R#')],
     [('erase', 'S$')],
+    # a statement that is refused (part-way): nothing changes
+    [('refused', 'CLEAR ,20000,0', 5)],
+    [('refused', 'CLEAR ,,4000 X', 2)],
     [('erasem', ('R#', 'P%'))],
     [('erasem', ('Q!', 'S$'))],
     [('swap', ('A%',), ('P%', (1,)))],
@@ -182,6 +185,8 @@ class Ref(object):
             del self.arrays[name]
             self.order.remove(name)
             return None
+        if kind == 'refused':
+            return prim[2]
         if kind == 'erasem':
             # one ERASE statement with a list: erased left to right, stops at the first missing array
             for name in prim[1]:
@@ -270,6 +275,8 @@ def render_prim(prim):
         return 'DIM %s(%s)' % (prim[1], ','.join(str(d) for d in prim[2]))
     if k == 'erase':
         return 'ERASE %s' % prim[1]
+    if k == 'refused':
+        return prim[1]
     if k == 'erasem':
         return 'ERASE %s' % ','.join(prim[1])
     if k == 'swap':
@@ -457,6 +464,8 @@ def op_label(op):
         return 'prog-' + p[2][0]
     if p[0] in ('let', 'cat'):
         return p[0] + ('-elem' if len(p[1]) == 2 else '-scalar') + p[1][0][-1]
+    if p[0] == 'refused':
+        return 'refused-' + p[1].split(' ')[0]
     if p[0] == 'erasem':
         return 'erase-list-' + ''.join(n[-1] for n in p[1])
     if p[0] in ('dim', 'erase'):
